@@ -19,3 +19,33 @@ pub(crate) fn set_random_unit(source: Option<Box<dyn FnMut() -> f64>>) {
 pub(crate) fn random_unit() -> Option<f64> {
     RANDOM_UNIT.with(|cell| cell.borrow_mut().as_mut().map(|source| source()))
 }
+
+thread_local! {
+    static BEFORE_WRITE: RefCell<Option<Box<dyn FnMut(&'static str)>>> = RefCell::new(None);
+}
+
+/// Installs (or removes) a callback which is called in front of every write to the store (a
+/// single put / delete, or the commit of a write batch) of the current thread, with the name
+/// of the write site. The callback may panic (a simulated crash) or block (a paused writer).
+pub(crate) fn set_before_write(callback: Option<Box<dyn FnMut(&'static str)>>) {
+    BEFORE_WRITE.with(|cell| *cell.borrow_mut() = callback);
+}
+
+/// Called by the storage in front of every write.
+pub(crate) fn before_write(site: &'static str) {
+    // Take the callback out while it runs, so that a panicking callback leaves no borrow.
+    let callback = BEFORE_WRITE.with(|cell| cell.borrow_mut().take());
+    if let Some(mut callback) = callback {
+        let result =
+            std::panic::catch_unwind(std::panic::AssertUnwindSafe(|| callback(site)));
+        BEFORE_WRITE.with(|cell| {
+            let mut slot = cell.borrow_mut();
+            if slot.is_none() {
+                *slot = Some(callback);
+            }
+        });
+        if let Err(payload) = result {
+            std::panic::resume_unwind(payload);
+        }
+    }
+}
